@@ -259,6 +259,10 @@ Section Den.
                             match p_size p with
                             | ESym s =>
                                 if String.eqb s (hash_name (p_name p)) then st
+                                else if mem s ips
+                                then (* the symbol is a declared parameter of the routine: the port does not define it, the
+                                        incoming size has to agree with the parameter's value *)
+                                     (fst st, (snd st ++ [int_pair w (eval_in rho sc1 false (ESym s))])%list)
                                 else match lookup s (fst st) with
                                      | None => ((fst st ++ [(s, p_name p)])%list, snd st)       (* first port with this symbol: defines it *)
                                      | Some first => (fst st, (snd st ++ [int_pair w (opt_join (lookup first W))])%list)
